@@ -10,6 +10,7 @@
      SSeg  - after a commit: the .kfs object as stored in S3 (all bytes), the
              parsed .index object (ParseIndex), the in-memory index entries and the
              registered segmentRange of segment #k;
+     SRestart - see the constructor;
      SRead - a PartitionLog.Read(offset, maxBytes) with: did the cache serve it,
              which S3 call was made (0 none, 1 range read, 2 full download), and the
              result.  A result is given by reference - "equals bytes [a,b) of S3
@@ -17,7 +18,7 @@
              object itself is compared in full by SSeg) or "equals accepted batches
              #i..#i+n-1 as stored" - or raw.
    [check_case] replays the steps on the model and compares everything. *)
-From KS Require Import lib.Base model.ReadPath.
+From KS Require Import lib.Base model.ReadPath model.ReadRestore.
 Open Scope Z_scope.
 
 (* payload generator shared with the harness (c03c04_test.go: srPayload): a
@@ -37,7 +38,10 @@ Inductive obs_res :=
 Inductive cstep :=
 | SOp (o : op) (next nsegs nflush nbuf : Z)
 | SSeg (k : Z) (data : bytes) (parsed mem : list (Z * Z)) (base last size : Z)
-| SRead (o max : Z) (hit : bool) (path : Z) (r : obs_res).
+| SRead (o max : Z) (hit : bool) (path : Z) (r : obs_res)
+(* a fresh PartitionLog(startOffset = sn) over the same S3 + RestoreFromS3 (succeeded):
+   afterwards nextOffset and, per registered segment, base / last / size / index entries *)
+| SRestart (sn next : Z) (segs : list (Z * Z * Z * list (Z * Z))).
 
 Record case := mkCase { k_interval : Z; k_requeue : bool; k_start : Z; k_steps : list cstep }.
 
@@ -84,6 +88,15 @@ Fixpoint check_steps (l : plog) (hist : list batch) (steps : list cstep) : bool 
       && check_steps l hist r
   | SRead o max hit path x :: r =>
       res_eqb l hist (read l hit o max) x && path_ok l o max hit path && check_steps l hist r
+  | SRestart sn next segs :: r =>
+      let l' := restore l sn in
+      (l_next l' =? next)
+      && list_eqb (fun a b => match a, b with (b1, l1, z1, e1), (b2, l2, z2, e2) =>
+                     (b1 =? b2) && (l1 =? l2) && (z1 =? z2)
+                     && list_eqb (fun x y => (fst x =? fst y) && (snd x =? snd y)) e1 e2 end)
+           (map (fun s => (s_base s, s_last s, s_size s, map (fun e => (ie_off e, ie_pos e)) (s_entries s))) (l_segs l'))
+           segs
+      && check_steps l' hist r
   end.
 
 Definition check_case (k : case) : bool :=
